@@ -304,3 +304,204 @@ func ruleJoinSplit(c *Ctx, r *R) {
 		}
 	}
 }
+
+func rulePeepMeasured(c *Ctx, r *R) {
+	jf, _, err := c.jumpFields()
+	if err != nil {
+		r.undecided("exec", "-", err.Error())
+		return
+	}
+	jf["Func"] = "C"
+	constructs := append(append([]string{}, controlConstructs...), "func")
+	ly, err := c.buildLayouts(constructs)
+	if err != nil {
+		r.undecided("compile", "-", err.Error())
+		return
+	}
+	cs, _ := c.compileSwitch()
+	for _, k := range constructs {
+		pos := "-"
+		if sc := cs.ByLabel[k]; sc != nil {
+			pos = c.Pos(sc.Clause)
+		}
+		if e := ly.Errs[k]; e != nil {
+			r.undecided(k, pos, e.Error())
+			continue
+		}
+		segs := map[string]*segment{}
+		for _, v := range ly.Views[k] {
+			for _, a := range v.Atoms {
+				if a.A.Seg != nil {
+					segs[a.A.Seg.lenKey()] = a.A.Seg
+				}
+			}
+		}
+		seen := map[string]bool{}
+		checkOperand := func(what string, t *T) {
+			l := linOf(t)
+			for key := range l.Coef {
+				if !strings.HasPrefix(key, "|") {
+					continue
+				}
+				ck := k + " " + what + " " + key
+				if seen[ck] {
+					continue
+				}
+				seen[ck] = true
+				s := segs[key]
+				if s == nil {
+					r.undecided(ck, pos, "operand mentions the length of a segment that is not in the layout")
+					continue
+				}
+				ok := s.Optimized || s.Kind == "loop-entry" || s.Kind == "loop-result"
+				r.check(ok, ck, pos, "length measured after c.optimize",
+					fmt.Sprintf("the %s operand of %s uses the length of segment %s, which is not the result of c.optimize: the enclosing block's later optimisation can shorten it under the already computed jump", what, k, key))
+			}
+		}
+		for _, v := range ly.Views[k] {
+			for _, a := range v.Atoms {
+				if a.A.Seg != nil {
+					for _, rule := range ly.m.ls(v.Path.St).rew[a.A.Seg.ID] {
+						checkOperand(strings.TrimPrefix(rule.From, "code")+"-rewrite", rule.A)
+					}
+					continue
+				}
+				if f, ok := jf[a.Role]; ok && !strings.HasPrefix(f, "?") {
+					if o := litField(a.A.Ins, f); o != nil {
+						checkOperand(a.Role+"."+f, o)
+					}
+				}
+			}
+		}
+	}
+}
+
+// PEEP-GLUE: literal glue instructions of control-flow layouts cannot complete a
+// length-reducing window inside a region that a jump of the construct already spans.
+func rulePeepGlue(c *Ctx, r *R) {
+	p, err := c.peephole()
+	if err != nil {
+		r.undecided("doOptimize", "-", err.Error())
+		return
+	}
+	jf, _, err := c.jumpFields()
+	if err != nil {
+		r.undecided("exec", "-", err.Error())
+		return
+	}
+	ly, err := c.buildLayouts(controlConstructs)
+	if err != nil {
+		r.undecided("compile", "-", err.Error())
+		return
+	}
+	cs, _ := c.compileSwitch()
+	for _, k := range controlConstructs {
+		pos := "-"
+		if sc := cs.ByLabel[k]; sc != nil {
+			pos = c.Pos(sc.Clause)
+		}
+		seen := map[string]bool{}
+		for _, v := range ly.Views[k] {
+			n := len(v.Atoms)
+			// spanned[i]: atom i lies between some jump and its landing boundary
+			spanned := make([]bool, n)
+			if v.AllSpanned {
+				for i := range spanned {
+					spanned[i] = true
+				}
+			}
+			for i, a := range v.Atoms {
+				if a.A.Seg != nil {
+					continue
+				}
+				f, ok := jf[a.Role]
+				if !ok || strings.HasPrefix(f, "?") {
+					continue
+				}
+				land, ok := ly.landing(v, i, f)
+				if !ok {
+					continue
+				}
+				b := -1
+				for j := 0; j <= n; j++ {
+					if v.Starts[j].String() == land.String() {
+						b = j
+						break
+					}
+				}
+				if b < 0 {
+					continue // reported by LAY-TARGET
+				}
+				lo, hi := i+1, b // atoms strictly after the jump up to the boundary
+				if b <= i {
+					lo, hi = b, i // backward jump: from the boundary up to the jump (exclusive)
+				}
+				for j := lo; j < hi && j < n; j++ {
+					spanned[j] = true
+				}
+			}
+			// glue runs
+			for s := 0; s < n; {
+				if v.Atoms[s].A.Seg != nil {
+					s++
+					continue
+				}
+				e := s
+				for e < n && v.Atoms[e].A.Seg == nil {
+					e++
+				}
+				run := v.Atoms[s:e]
+				for _, rw := range p.Rewrites {
+					w := len(rw.Window)
+					if w < 2 {
+						continue
+					}
+					for off := -(w - 1); off < len(run); off++ {
+						match, touches, inSpan := true, false, false
+						for q := 0; q < w; q++ {
+							gi := off + q
+							switch {
+							case gi < 0:
+								// position falls into the atom preceding the run (a segment's tail: any opcode)
+								if s > 0 && spanned[s-1] {
+									inSpan = true
+								}
+							case gi >= len(run):
+								if e < n && spanned[e] {
+									inSpan = true
+								}
+							default:
+								touches = true
+								if "code"+run[gi].Role != rw.Window[q] {
+									match = false
+								}
+								if spanned[s+gi] {
+									inSpan = true
+								}
+							}
+						}
+						if !touches {
+							continue
+						}
+						key := fmt.Sprintf("%s run[%s] × %s @%d", v.Label, runString(run), rw.Key(), off)
+						if seen[key] {
+							continue
+						}
+						seen[key] = true
+						r.check(!(match && inSpan), key, pos, "cannot fuse",
+							fmt.Sprintf("in the %s layout `%s` the glue instructions [%s] can complete the window %s (offset %d) inside a region an already computed jump spans: the enclosing block's optimisation shortens that region and the jump lands one instruction late", v.Label, v.shape(), runString(run), rw.Key(), off))
+					}
+				}
+				s = e
+			}
+		}
+	}
+}
+
+func runString(run []layAtomInfo) string {
+	var s []string
+	for _, a := range run {
+		s = append(s, a.Role)
+	}
+	return strings.Join(s, ",")
+}
